@@ -80,6 +80,8 @@ def run(chk, orch):
         ({"seed": 22, "n_chr": 3, "genes_per_chr": 2, "reads_per_iso": 3, "paralogs": 1, "novel": 1, "groups": 2},
          {"read_group": "file"}, dict(common.GOLDEN_CELL, threads=3, sched={"policy": "random", "seed": 3}, bufsize=256)),
     ]
+    wls.append(({"seed": 26, "n_chr": 2, "genes_per_chr": 2, "reads_per_iso": 2, "paralogs": 1, "novel": 0},
+                {"ref_gz": True}, dict(common.GOLDEN_CELL, threads=2, sched={"policy": "placed", "seed": 2})))
     if not quick:
         wls += [
             ({"seed": 23, "n_chr": 2, "genes_per_chr": 2, "reads_per_iso": 3, "paralogs": 1, "n_exp": 2},
@@ -134,6 +136,9 @@ def run(chk, orch):
                     if not quick and chk.rng.random() < 0.3:
                         rs["threads"] = chk.rng.choice([1, 2, 4])
                         rs["sched"] = {"policy": chk.rng.choice(common.POLICIES), "seed": chk.rng.randrange(1000)}
+                    if not quick and chk.rng.random() < 0.1:
+                        # options --resume accepts: the memory mode may change between the killed and the resumed run
+                        rs["high_memory"] = not cell.get("high_memory", False)
                     a["resume"] = rs
                     orch.submit(cell["hashseed"], "scenarios:crash_resume", a, tag=("x", wi, seq, phase))
                     points[(wi, seq, phase)] = (label, st[seq], a)
